@@ -147,7 +147,8 @@ population{one port per role, all ports}: every valid PAIR of knob values occurs
 groups overflow x buffer x history x subscriber-0 request, borrowed x buffer x overflow, loans x history x overflow, \
 backpressure x buffer x max_subscribers (overflow off), focus x start x max_publishers x max_subscribers occurs (validity: without \
 overflow buffer >= history, as the service builder demands). Service variant: local for all; thorough adds an ipc pass over a pairwise \
-array of the same knobs.";
+array of the same knobs. Plus three directed configurations with THREE subscribers, no safe overflow, one publisher and the strategies \
+discard-and-fail / retry-then-discard / discard (one send meets several full subscribers and one with room).";
 
 fn valid(a: &[Option<usize>]) -> bool {
     // the service builder rejects history > buffer without safe overflow
@@ -229,6 +230,32 @@ fn depth_for(c: &Cfg, prop: &str, leaves: f64, min: usize, max: usize) -> usize 
     d.clamp(min, max)
 }
 
+/// directed additions to the covering array: three subscribers without safe overflow, so that one
+/// send meets several full subscribers and one with room (delivery must not stop at a full one)
+fn three_subscribers(max_creates: usize) -> Vec<Cfg> {
+    let mut v = Vec::new();
+    for (strategy, buf, start) in [(Strategy::RetryThenFail, 1, Start::SubFirst), (Strategy::RetryThenDiscard, 1, Start::SubFirst), (Strategy::Discard, 2, Start::PubFirst)] {
+        v.push(Cfg {
+            variant: Variant::Local,
+            payload: Payload::U64,
+            maxp: 1,
+            maxs: 3,
+            buf,
+            hist: 0,
+            bor: 1,
+            loans: 1,
+            overflow: false,
+            strategy,
+            sub_qos: [SubQos::Default, SubQos::Default],
+            focus: Focus::Delivery,
+            start,
+            populate: Populate::All,
+            max_creates,
+        });
+    }
+    v
+}
+
 pub fn configs(tier: Tier, prop: &str) -> Vec<(Cfg, Plan)> {
     let mut out = Vec::new();
     match tier {
@@ -240,6 +267,9 @@ pub fn configs(tier: Tier, prop: &str) -> Vec<(Cfg, Plan)> {
                 let frontier = if prop == "C08" { (60, 8) } else { (150, 10) };
                 out.push((c, Plan { tree_depth: d, finish_prefixes: false, frontier: Some(frontier), split: 1 }));
             }
+            for c in three_subscribers(3) {
+                out.push((c, Plan { tree_depth: 5, finish_prefixes: false, frontier: Some((100, 8)), split: 2 }));
+            }
         }
         Tier::Thorough => {
             let focuses = [Focus::Delivery, Focus::ChurnSub, Focus::ChurnPub, Focus::Full];
@@ -248,6 +278,9 @@ pub fn configs(tier: Tier, prop: &str) -> Vec<(Cfg, Plan)> {
                 let d = depth_for(&c, prop, leaves, 5, 8);
                 let states = if prop == "C08" { 1000 } else { 1500 };
                 out.push((c, Plan { tree_depth: d, finish_prefixes: false, frontier: Some((states, 12)), split: 1 }));
+            }
+            for c in three_subscribers(4) {
+                out.push((c, Plan { tree_depth: 7, finish_prefixes: false, frontier: Some((800, 12)), split: 4 }));
             }
             let focuses = [Focus::Delivery, Focus::ChurnSub, Focus::ChurnPub];
             for c in ipc_set(&focuses, 3) {
